@@ -200,18 +200,29 @@ func (s *Stream) FlipBitAt(off int64) {
 	s.out.mu.Unlock()
 }
 // FailNow makes the peer's reads of this direction fail with err once the bytes
-// already written have been consumed... (errors overtake buffered data, like a
-// QUIC reset): use CloseWrite for a clean end after the buffered bytes.
+// already written have been consumed (buffered data is delivered first).
 func (s *Stream) FailNow(err error) { s.out.fail(err) }
-
-// CloseWrite ends this direction cleanly (FIN): the peer reads the buffered
-// bytes, then io.EOF.  Unlike Close it leaves the read direction usable.
-func (s *Stream) CloseWrite() { s.out.closeWrite() }
 
 func (s *Stream) Written() int64 {
 	s.out.mu.Lock()
 	defer s.out.mu.Unlock()
 	return s.out.written
+}
+
+// Consumed reports how many of the bytes this end has written the peer has read.
+func (s *Stream) Consumed() int64 {
+	s.out.mu.Lock()
+	defer s.out.mu.Unlock()
+	return s.out.read
+}
+
+// CloseWrite ends this end's outgoing direction (the peer reads EOF after the
+// buffered bytes) and leaves its incoming direction open.
+func (s *Stream) CloseWrite() {
+	if s.announce != nil {
+		s.once.Do(s.announce)
+	}
+	s.out.closeWrite()
 }
 
 // HoldIncoming stops this end from seeing incoming bytes until released.
